@@ -58,7 +58,10 @@ def parseTable (j : Json) : Table :=
     else if hasPrefix virt "columns" then .columns
     else if hasPrefix virt "groupby" then .groupby
     else .none
-  { name := jStr j "name", tid := jNat j "id", cols := (jArr j "columns").map parseColumn,
+  -- `Table.columnsIndex` is a map by name: a name that occurs twice (peer_key of the by-group tables) means the last one
+  let all := (jArr j "columns").map parseColumn
+  let cols := all.map fun c => (all.reverse.find? (·.name == c.name)).getD c
+  { name := jStr j "name", tid := jNat j "id", cols := cols,
     primaryKey := jStrs j "primary_key", defaultSort := jStrs j "default_sort",
     refs := (jArr j "refs").map (fun r => { table := jStr r "table", cols := jStrs r "columns" }),
     virt := kind, passthrough := jBool j "passthrough" }
